@@ -911,3 +911,73 @@ func (P *Prog) EvalNoEqClause(c *Clause, unit string) ([]*Obligation, error) {
 	}
 	return out, nil
 }
+
+// EvalRecoversClause decides `recovers[label] <function-key substring>...`: each named function defers, on its entry path
+// (a defer instruction in its first block), a function that calls the builtin recover - so a panic raised by anything it
+// calls (a library that faults on malformed input) ends as a normal return of this function, not as a crash of the process.
+// It says nothing about what the function returns then. One obligation per function.
+func (P *Prog) EvalRecoversClause(c *Clause, unit string) ([]*Obligation, error) {
+	pats := strings.Fields(c.Text)
+	if len(pats) == 0 {
+		return nil, fmt.Errorf("%s:%d: recovers <function>...", c.File, c.Line)
+	}
+	label := strings.Join(c.Labels, ",")
+	var keys []string
+	for k := range P.Funcs {
+		keys = append(keys, k)
+	}
+	sort.Strings(keys)
+	callsRecover := func(fn *ssa.Function) bool {
+		if fn == nil {
+			return false
+		}
+		for _, b := range fn.Blocks {
+			for _, ins := range b.Instrs {
+				if ci, ok := ins.(ssa.CallInstruction); ok {
+					if bi, ok := ci.Common().Value.(*ssa.Builtin); ok && bi.Name() == "recover" {
+						return true
+					}
+				}
+			}
+		}
+		return false
+	}
+	var out []*Obligation
+	for _, pat := range pats {
+		var found []string
+		for _, k := range keys {
+			if strings.Contains(k, pat) && len(P.Funcs[k].Blocks) > 0 && P.Funcs[k].Parent() == nil {
+				found = append(found, k)
+			}
+		}
+		if len(found) != 1 {
+			return nil, fmt.Errorf("%s:%d: recovers: %q matches %d functions", c.File, c.Line, pat, len(found))
+		}
+		fn := P.Funcs[found[0]]
+		ok := false
+		for _, ins := range fn.Blocks[0].Instrs {
+			d, isDefer := ins.(*ssa.Defer)
+			if !isDefer {
+				continue
+			}
+			switch v := d.Call.Value.(type) {
+			case *ssa.MakeClosure:
+				if f, isFn := v.Fn.(*ssa.Function); isFn && callsRecover(f) {
+					ok = true
+				}
+			case *ssa.Function:
+				if callsRecover(v) {
+					ok = true
+				}
+			}
+		}
+		o := &Obligation{Func: unit, Name: fmt.Sprintf("[%s:%s]", label, shortKey(found[0])), Kind: "ground", Detail: "the function defers a recover on its entry path", Clause: c,
+			Goal: "true", Guard: "true", Solver: "flow-judgement", Result: "unsat", Site: token.Position{Filename: c.File, Line: c.Line}}
+		if !ok {
+			o.Result = "sat"
+			o.Model = "no deferred function that calls recover() in the entry block of " + found[0] + ": a panic in a callee terminates the process"
+		}
+		out = append(out, o)
+	}
+	return out, nil
+}
